@@ -95,6 +95,8 @@ class Gamma:
             f = float(v)
         except (TypeError, ValueError):
             return ("not-a-number", repr(v))
+        if f != f or f in (float("inf"), float("-inf")):
+            return ("not-finite", repr(v))
         if kind == "lat":
             r = f * self.U
             k = round(r)
